@@ -18,7 +18,7 @@ from sx import rt
 from sx.core import ctx
 from sx.terms import DIGIT, LOWER, UPPER, PChar, category_ranges, complement, intersect_ranges, merge_ranges, seg_lookup, stable_other_domain, upper_tables
 
-BOUNDS = {"quick": {"countries": "the 19 computing countries + DE, GB + 8 seeded others with positions + 2 without positions + unknown country", "lengths": "full widths; each component one shorter / one longer (others full); empty branch; combined bank+branch width", "alphabet": "ASCII digits, ASCII letters of either case and every upper-case-stable code point; whitespace, expanding and non-ASCII case-changing code points are covered by Lemma N on clean() only"},
+BOUNDS = {"quick": {"countries": "the 19 computing countries + DE, GB + 4 seeded others with positions + 2 without positions + unknown country", "lengths": "full widths; each component one longer, account one shorter (others full); combined bank+branch width", "alphabet": "ASCII digits, ASCII letters of either case and every upper-case-stable code point; whitespace, expanding and non-ASCII case-changing code points are covered by Lemma N on clean() only"},
           "thorough": {"countries": "all", "lengths": "as quick for every country; for the 19 computing countries every component length 0..width+2 (others full) plus 12 seeded triples", "alphabet": "as quick"}}
 STUBS = ["str.zfill incl. sign rule", "as C01"]
 ASSUMPTIONS = ["IT/SM/FI component characters are digits or non-alphanumeric here (letter patterns: C06-N, C09-A)", "a bank code of combined bank+branch width supplied together with a non-empty branch code is outside the claim (the statement does not say which of the two conflicting inputs wins)",
@@ -53,7 +53,7 @@ def jobs(tier, seed):
         ccs = sorted(table.countries())
     else:
         withpos = [c for c in H.country_jobs(tier, seed) if table.positions(c) and c not in COMPUTING]
-        ccs = sorted(set(COMPUTING) | set(rnd.sample(withpos, 8)) | {"DE", "GB"}) + ["AO", "IR"]
+        ccs = sorted(set(COMPUTING) | set(rnd.sample(withpos, 4)) | {"DE", "GB"}) + ["AO", "IR"]
     for cc in ccs:
         if not table.positions(cc):
             out.append({"cc": cc, "lens": [[1, 1, 0]]})
@@ -66,7 +66,7 @@ def jobs(tier, seed):
             if every:
                 cand = list(range(0, w[k] + 3))
             else:
-                cand = [max(0, w[k] - 1), w[k] + 1] + ([0] if i == 2 else [])
+                cand = [w[k] + 1] + ([max(0, w[k] - 1)] if i == 1 else [])
             if i == 0 and w["branch_code"]:
                 cand.append(w["bank_code"] + w["branch_code"])
             for n in cand:
